@@ -644,6 +644,7 @@ func (m *model) key(s S) string {
 }
 
 var mbcv uint32
+var traceViolations int
 
 func main() {
 	debug.SetMemoryLimit(6 << 30)
@@ -669,6 +670,28 @@ func main() {
 	}
 	start := time.Now()
 	budget := r.QT(200, 1700) // seconds over all four jobs (ev's own deadline still applies)
+	for i, a := range os.Args {
+		if (a == "--budget" || a == "-budget") && i+1 < len(os.Args) {
+			if d, err := time.ParseDuration(os.Args[i+1]); err == nil {
+				budget = int(d.Seconds() * 0.9)
+			}
+		} else if strings.HasPrefix(a, "--budget=") || strings.HasPrefix(a, "-budget=") {
+			if d, err := time.ParseDuration(a[strings.Index(a, "=")+1:]); err == nil {
+				budget = int(d.Seconds() * 0.9)
+			}
+		}
+	}
+	// --replay <violation file>: re-execute the recorded event path on the recorded pool size and print every state
+	var replay struct {
+		PoolSize int      `json:"pool_size"`
+		Path     []string `json:"path"`
+	}
+	if r.ReplayPath != "" {
+		if err := r.LoadReplay(&replay); err != nil {
+			r.HarnessError("cannot read replay: %v", err)
+		}
+		os.Setenv("C34_TRACE", strings.Join(replay.Path, ","))
+	}
 	aliases := os.Getenv("C34_ALIASES") != "0"
 	cov := map[string]any{}
 	total := mc.Stats{}
@@ -696,7 +719,7 @@ func main() {
 			m.c.addAliases()
 		}
 		if os.Getenv("C34_TRACE") != "" {
-			if j.profile != "epochs" {
+			if j.profile != "epochs" || (replay.PoolSize != 0 && replay.PoolSize != n) {
 				continue
 			}
 			m.union = true
@@ -782,6 +805,9 @@ func main() {
 		cov["alphabet_"+j.profile+"_pool_"+fmt.Sprint(n)] = m.names
 	}
 	if os.Getenv("C34_TRACE") != "" {
+		if traceViolations > 0 {
+			os.Exit(1)
+		}
 		os.Exit(0)
 	}
 	if r.NViolations() == 0 { // (a mutant that removes a guard must end in VIOLATION, not in a vacuity error)
@@ -818,7 +844,8 @@ func (m *model) trace(s S, evs []string) {
 		v, _ := decode(mapworld.NewFrom(ns.D))
 		fmt.Printf("%-28s h=%d %s\n", e, ns.H, v.describe(m.c))
 		for _, b := range ns.Bad {
-			fmt.Printf("    VIOLATION %s %v\n", b.Key, b.Detail["result"])
+			fmt.Printf("    VIOLATION %s\n", b.Key)
+			traceViolations++
 		}
 		s = ns
 	}
